@@ -4,7 +4,7 @@
 //!   keys: reuse=1 (keep the context of the previous script), reset=1 (drop the kept context first), loop=<n> rec=<n> stack=<n> (runtime limits),
 //!         budget=<n> (instruction budget), opt=<bits> (optimizer options; absent = default),
 //!         cons=<bits> (conservative compilation hook: 1 every binding in an environment, 2 no const cache, 4 no hoisting, 8 no fused branches),
-//!         ic=0 (inline caches off, hook), icrec=1 (record InlineCache get/set events into "ic")
+//!         ic=0 (inline caches off, hook), ic=2 (caches on, but no entries for properties found on the prototype), icrec=1 (record InlineCache get/set events into "ic")
 use boa_engine::optimizer::OptimizerOptions;
 use bvh::{Limits, eval_in, guarded, new_context};
 use std::io::Read;
@@ -31,6 +31,7 @@ fn main() {
         let mut reuse = false;
         let mut opt: Option<u8> = None;
         let mut ic_on = true;
+        let mut ic_proto = true;
         let mut ic_rec = false;
         let mut cons: u8 = 0;
         for kv in it {
@@ -43,7 +44,7 @@ fn main() {
                     "stack" => l.stack = v.parse().ok(),
                     "budget" => l.instructions = v.parse().unwrap_or(l.instructions),
                     "opt" => opt = v.parse().ok(),
-                    "ic" => ic_on = v != "0",
+                    "ic" => { ic_on = v != "0"; ic_proto = v != "2"; }
                     "icrec" => ic_rec = v == "1",
                     "cons" => cons = v.parse().unwrap_or(0),
                     _ => {}
@@ -55,6 +56,7 @@ fn main() {
             ctx.set_optimizer_options(OptimizerOptions::from_bits_truncate(bits));
         }
         boa_engine::verif::set_inline_caches(ic_on);
+        boa_engine::verif::set_prototype_entries(ic_proto);
         boa_engine::verif::record_ic_events(ic_rec);
         let _ = boa_engine::verif::take_ic_events();
         boa_ast::scope::verif::set_conservative(cons);
@@ -72,6 +74,7 @@ fn main() {
         }
         boa_ast::scope::verif::set_conservative(0);
         boa_engine::verif::set_inline_caches(true);
+        boa_engine::verif::set_prototype_entries(true);
         boa_engine::verif::record_ic_events(false);
         println!("{j}");
     }
